@@ -60,6 +60,8 @@ def node_failures(sp, dt):
         N = safe_mat(H, H.ishape, dt)
     except Exception as e:
         return out + ["raises:adjoint:%s" % type(e.__cause__ or e).__name__]
+    if not (np.all(np.isfinite(M)) and np.all(np.isfinite(N))) and dt in ("complex64", "float32"):
+        return ["unbuildable"]          # the operator's entries leave the single-precision range: nothing to compare
     scale = max(np.linalg.norm(M), np.linalg.norm(N), 1e-30)
     if N.shape == M.T.shape and not np.linalg.norm(N - M.conj().T) <= tol(dt) * scale:
         # tolerance relative to the operands, not to a possibly cancelling result (Identity - NUFFT in single precision)
